@@ -546,7 +546,7 @@ class Sym:
 
     def sqrt(a):
         if not a.im.is_zero():
-            raise Inconclusive("sqrt of a complex symbolic value")
+            return _csqrt(a)
         r = a.re
         if r.is_zero():
             return C(0)
@@ -594,8 +594,10 @@ class Sym:
         if isinstance(b, NaNSym):
             return SymBool(z3.BoolVal(False), False)
         if not (a.im.is_zero() and b.im.is_zero()):
-            # numpy compares complex lexicographically; cola never relies on it
-            raise Inconclusive("ordering comparison of complex symbolic values")
+            # numpy orders complex numbers lexicographically by (real, imaginary) (the Hutchinson stopping rule on a complex operator gets here)
+            ar, br, ai, bi = Sym(a.re), Sym(b.re), Sym(a.im), Sym(b.im)
+            strict = ar._cmp(br, 'lt' if op in ('lt', 'le') else 'gt')
+            return strict | ((ar == br) & ai._cmp(bi, op))
         d = a.re - b.re
         if d.is_const():
             val = OPS[op](d.cval(), 0)
@@ -915,6 +917,28 @@ def _abs_gen_poly(p):
     E.nonneg.add(gi)
     out = Sym(Rat(Poly.varidx(gi)))
     E.sqrt_memo[key] = (p, out)
+    return out
+
+
+def _csqrt(a):
+    """principal square root of a complex value as a pair of generators (u, v): (u + i v)^2 == a, u >= 0 (and v >= 0 when u == 0).  No rewrite
+    rule: the result is an opaque, correctly constrained value (enough for error estimates that only steer a loop)"""
+    import cmath
+    key = ("csqrt", hash(a.re), hash(a.im))
+    hit = E.sqrt_memo.get(key)
+    if hit is not None and hit[0] == (a.re, a.im):
+        return hit[1]
+    sv = complex(E.reval(a.re), E.reval(a.im))
+    try:
+        w = cmath.sqrt(sv)
+    except (ValueError, OverflowError):
+        w = complex('nan')
+    ui, vi = E.new_gen("csqrtre", w.real), E.new_gen("csqrtim", w.imag)
+    u, v = E.zv(ui), E.zv(vi)
+    E.defs.append(z3.And(u >= 0, u * u - v * v == E.r2z(a.re), 2 * u * v == E.r2z(a.im), z3.Implies(u == 0, v >= 0)))
+    E.nonneg.add(ui)
+    out = Sym(Rat(Poly.varidx(ui)), Rat(Poly.varidx(vi)))
+    E.sqrt_memo[key] = ((a.re, a.im), out)
     return out
 
 
